@@ -9,6 +9,7 @@ import PV.Driver.CondVar
 import PV.Driver.Atomics
 import PV.Driver.Locks
 import PV.Driver.HashX
+import PV.Driver.RWLock
 def main (args : List String) : IO UInt32 := do
   match args with
   | ["ht"] => PV.Driver.HT.run; return 0
@@ -22,4 +23,6 @@ def main (args : List String) : IO UInt32 := do
   | ["atomics"] => PV.Driver.Atomics.run; return 0
   | ["locks"] => PV.Driver.Locks.run; return 0
   | ["hashx"] => PV.Driver.HashX.run; return 0
+  | ["rwlock"] => PV.Driver.RWLock.run; return 0
+  | ["rwlock-posix"] => PV.Driver.RWLock.runPosix; return 0
   | _ => IO.eprintln "usage: pvdriver <family>  (ops on stdin)"; return 2
